@@ -183,6 +183,8 @@ def run(ctx):
                               "files": {k: mc.tree_obj(t) for k, t in small["files"].items()},
                               "suppress_key_warnings": bad[0]["suppress"]},
             "impl_output_unshrunk": bad[0]["impl"], "count": len(bad),
+            "result_class": {"hang": "HANG (no answer within the per-project time limit)", "panic": "PANIC"}.get(
+                bad[0]["impl"].get("kind"), "WRONG-ANSWER"),
             "explanation": "spec_C07 (Parser/MergeCheck.v) is false on the implementation's output: the MissingKey/SurplusKey "
                            "warnings are not exactly (as a multiset) the ones the key sets call for, or the BuildersKeys paths "
                            "are not the default locale's, or an error was (not) raised / names a place without a mismatch"})
@@ -216,7 +218,8 @@ def run(ctx):
         "directed_rule": "Then directed projects: every feasible pair of values of the quantifier's dimensions (evidence field `pairwise`: key state x depth x namespace index x locale position x state of the previously merged locale x inherits kind x absent-vs-surplus balance x number of locales x outcome x build) left empty by the above is filled by a project built for it (checks/cov_merge.py).",
         "samples": [{"project": m["project"], "impl": m["impl"]["raw"][:600]} for m in metas[:2] + metas[-2:]],
         "traces_validated_against_impl": len(metas), "disagreements": len(dis), "spec_failures_on_impl": len(bad),
-        "skipped_outside_model": len(skipped), "panics": len(panics),
+        "skipped_outside_model": len(skipped), "panics": len(panics), "hangs": sum(1 for m in metas if m["impl"].get("kind") == "hang"),
+        "not_run_after_hangs": getattr(ctx, "not_run", 0),
         "other_warning_kinds_ignored": sum(m["impl"].get("other_warnings", 0) for m in metas),
         "input_distribution": hist, "audit_problems": problems, "pairwise": pw,
     }, assumptions=[
